@@ -15,7 +15,7 @@ TEXT = ("TLC exhausts the bounded thread-level (or task-level) model of the pool
 
 CHECKS = {
     "C01": "managed", "C02": "managed", "C03": "managed", "C04": "managed", "C06": "managed", "C07": "managed",
-    "C08": "managed", "C09": "managed", "C10": "managed", "C11": "managed", "C13": "managed", "C05": "unmanaged", "C12": "unmanaged", "C14": "sync", "C15": "syncmgr",
+    "C08": "managed", "C09": "managed", "C10": "managed", "C11": "managed", "C13": "managed", "C05": "unmanaged", "C12": "unmanaged", "C14": "sync", "C15": "syncmgr", "C18": "cases",
 }
 EXTRA = {}
 try:
@@ -25,7 +25,22 @@ except FileNotFoundError:
 
 checks = []
 for pid in sorted(props):
-    if pid in CHECKS:
+    if pid in CHECKS and CHECKS[pid] == "cases":
+        table = {"C18": "PgConfig.tla", "C19": "RedisConfig.tla"}[pid]
+        checks.append({
+            "property_id": pid,
+            "quick_cmd": "./check %s --tier quick" % pid,
+            "thorough_cmd": "./check %s --tier thorough" % pid,
+            "evidence_file": "/verif/evidence/%s.json" % pid,
+            "replay_cmd_template": "./check replay {path}",
+            "engine": "tlc+replay",
+            "level_claimed": {"category": "model_checking",
+                              "text": "The translation rules the property states are transcribed as a TLA+ decision table (spec/%s): TLC enumerates a structured input space (every initial state is one input with its expected outcome, slice by slice) and the harness calls the real functions on each input and compares every observable of the result; the URL parse results used as constants of the table are re-checked against the parser. Small-scope exhaustive over the enumerated grid, not a proof over all strings." % table,
+                              "design_ref": "DESIGN.md section 7 (%s), section 4.6" % pid},
+            "level_note": "Inputs limited to the enumerated grid (listed in evidence.configs); $USER is set per case by the harness; value-space fidelity (arbitrary strings) is covered by representative classes only.",
+            "technique": "TLA+ decision-table spec (%s) enumerated by TLC; every case executed on the real code and compared" % table,
+        })
+    elif pid in CHECKS:
         kind = CHECKS[pid]
         checks.append({
             "property_id": pid,
